@@ -35,6 +35,7 @@ fn main() {
     if std::env::var("VERIF_PANIC").is_err() {
         silence_panics();
     }
+    start_watchdog(prop.clone(), 30.0);
     let replay_path = args.iter().position(|a| a == "--replay").map(|i| args[i + 1].clone());
     let code = props::dispatch(&ctx, replay_path.as_deref());
     std::process::exit(code);
